@@ -168,8 +168,7 @@ Proof.
     rewrite (stmt_not_free_test lab body Hlen Hl), (stmt_not_var_early lab body Hlen Hl). cbn [orb].
     apply andb_false_iff; right. etransitivity; [apply amp_end_stmt; assumption|exact Hamp].
   - (* continuation *)
-    apply andb_true_iff in H as [H Hcode]. apply andb_true_iff in H as [H Hamp]. apply andb_true_iff in H as [H Hbang].
-    apply andb_true_iff in H as [Halpha Hsp]. apply negb_true_iff in Halpha, Hsp, Hbang, Hamp.
+    apply andb_true_iff in H as [H Hrest]. apply andb_true_iff in H as [Halpha Hsp]. apply negb_true_iff in Halpha, Hsp.
     assert (Hm32 : N.eqb m 32 = false) by (unfold py_space in Hsp; lia).
     unfold line_free.
     assert (Hlb : leading_blanks (repeat 32%N 5 ++ [m] ++ body) = 5) by (rewrite leading_blanks_repeat; cbn [app leading_blanks]; rewrite Hm32; reflexivity).
@@ -178,7 +177,13 @@ Proof.
     { unfold var_early. rewrite Hlb. cbn [repeat app skipn Nat.ltb Nat.leb andb].
       destruct (starts_kw (m :: body)) eqn:Ek; [|reflexivity]. apply starts_kw_alpha in Ek. congruence. }
     rewrite Hft, Hve. cbn [orb].
-    apply andb_false_iff; right. etransitivity; [apply amp_end_cont; assumption|exact Hamp].
+    apply andb_false_iff; right.
+    apply orb_true_iff in Hrest as [Hbang|Hrest].
+    + (* `!` in column 6: nothing but blanks before it *)
+      apply N.eqb_eq in Hbang. subst m. reflexivity.
+    + apply andb_true_iff in Hrest as [Hamp Hcode]. apply negb_true_iff in Hamp.
+      destruct (N.eqb m 33) eqn:Hbang; [apply N.eqb_eq in Hbang; subst m; reflexivity|].
+      etransitivity; [apply amp_end_cont; assumption|exact Hamp].
 Qed.
 
 Lemma forallb_code_lines (P : str -> bool) : forall ls ppc, forallb P ls = true -> forallb P (code_lines ppc ls) = true.
